@@ -69,6 +69,8 @@ type JobConfigPlan struct {
 	LastScheduled  *int64   `json:"lastScheduled,omitempty"` // persisted status (restart scenarios)
 	LastUpdated    *int64   `json:"lastUpdated,omitempty"`
 	CreatedBefore  int64    `json:"createdBeforeSec,omitempty"` // creationTimestamp = epoch - this
+	TemplateLabels      map[string]string `json:"templateLabels,omitempty"`
+	TemplateAnnotations map[string]string `json:"templateAnnotations,omitempty"`
 	Template       JobTemplatePlan `json:"template"`
 }
 
